@@ -1,5 +1,7 @@
 import LinfaSpec.Proofs.Smo
 import LinfaSpec.Proofs.SmoKkt
+import LinfaSpec.Proofs.SmoPub
+import LinfaSpec.Proofs.SmoGrad
 import Mathlib.Algebra.Order.Field.Rat
 
 /-!
@@ -426,6 +428,193 @@ theorem weightedSum_pairs (thr : α) (alpha : List α) (kf : Nat → α) :
 
 example : supportIdx (1/100 : ℚ) [1/2, 0, -2, 1/1000] = [0, 2] := by
   norm_num [supportIdx, gf, absS, List.range_succ, List.filter]
+
+/-! ### what `solve` publishes: the loop keeps the bookkeeping sound, so the written-back vector is
+feasible sample by sample (round 3: composition of `solve_loop_feasible`, `writeBack_correct` and
+alignment, which the second audit found stated only informally) -/
+
+/-- **`active_set` stays a permutation of the samples through the whole main loop** (selection, step,
+`do_shrinking(_nu)` with its swaps, `reconstruct_gradient`, re-activation; every fuel, plain and nu
+form): the hypotheses `Nodup` / range of `writeBack_correct` hold for whatever state the loop returns. -/
+theorem solve_loop_keeps_permutation (e : Env α) (shrinking : Bool) (fuel : Nat) (s : St α)
+    (iter counter n : Nat) (h : PermInv n s) :
+    PermInv n (solveLoop e shrinking fuel s iter counter).1 :=
+  solveLoop_inv (permInv_loop e n) shrinking fuel s iter counter h
+
+/-- **labels and bounds stay aligned with `active_set` through the whole main loop** (for all three
+kernel wrappers): position `k` of the returned state holds label and bound of sample `active_set[k]`. -/
+theorem solve_loop_keeps_alignment (e : Env α) (b0 : List α) (y0 : List Bool) (shrinking : Bool)
+    (fuel : Nat) (s : St α) (iter counter : Nat) (h : AlignedBY b0 y0 s) :
+    AlignedBY b0 y0 (solveLoop e shrinking fuel s iter counter).1 :=
+  solveLoop_inv (alignedBY_loop e b0 y0) shrinking fuel s iter counter h
+
+/-- `SolverState::new` establishes both (identity `active_set`), the box and the sizes -/
+theorem init_establishes (e : Env α) (a0 p0 b0 : List α) (y0 : List Bool)
+    (hb : b0.length = a0.length) (hy : y0.length = a0.length)
+    (hbox : ∀ k, k < a0.length → 0 ≤ gf a0 k ∧ gf a0 k ≤ gf b0 k) :
+    PermInv a0.length (init e a0 p0 b0 y0) ∧ AlignedBY b0 y0 (init e a0 p0 b0 y0) ∧
+    Feas a0.length (∑ k ∈ Finset.range a0.length, (if gb y0 k then (1 : α) else -1) * gf a0 k)
+      (init e a0 p0 b0 y0) := by
+  obtain ⟨c1, c2, c3, c4, c5, _, _⟩ := init_core e a0 p0 b0 y0
+  refine ⟨⟨by rw [c4]; simp, by rw [c1], by rw [c5], by rw [c4]; exact List.nodup_range,
+      by rw [c4]; intro a ha; exact List.mem_range.mp ha⟩, ⟨⟨by rw [c3, c1]; exact hy, by rw [c2, c1]; exact hb,
+      by rw [c4, c1]; simp, by rw [c5, c1]⟩, ?_⟩, ⟨⟨by rw [c2, c1]; exact hb, ?_⟩, by rw [c3, c1]; exact hy,
+      by rw [c1], by rw [c5], ?_⟩⟩
+  · intro k hk
+    rw [c1] at hk
+    rw [c3, c2, c4, gn_range _ k hk]
+    exact ⟨rfl, rfl⟩
+  · intro k hk
+    rw [c1] at hk ⊢
+    rw [c2]; exact hbox k hk
+  · unfold ySum tgt; rw [c1, c3]
+
+example : (∀ k, k < ([0, 1/2] : List ℚ).length → 0 ≤ gf ([0, 1/2] : List ℚ) k ∧ gf ([0, 1/2] : List ℚ) k ≤ gf ([1, 1] : List ℚ) k) := by
+  intro k hk
+  have : k = 0 ∨ k = 1 := by simp only [List.length_cons, List.length_nil] at hk; omega
+  rcases this with h | h <;> subst h <;> norm_num [gf]
+
+/-- **the coefficient vector the solver writes back is feasible sample by sample** — for every
+problem (`alpha0` in the box of `b0`, any kernel, linear term, labels, tolerance), every kernel wrapper,
+plain or nu selection, shrinking on or off, every fuel (so also at the iteration limit): with
+`s` the state the main loop of `solve` stops in, started from `SolverState::new`,
+`writeBack s` — the vector `solve` builds through `active_set` — has one entry per variable, entry `a`
+lies in `[0, b0[a]]` (the bound **of that sample**, whatever permutation shrinking left behind), and
+`Σ_a y_a · out_a` is the value the start had.  No hypothesis beyond the feasibility of the start:
+permutation and alignment of the bookkeeping are established by `SolverState::new` and kept by the loop
+(`solve_loop_keeps_permutation`, `solve_loop_keeps_alignment`). -/
+theorem published_alpha_feasible (e : Env α) (shrinking : Bool) (fuel : Nat) (a0 p0 b0 : List α)
+    (y0 : List Bool) (iter counter : Nat)
+    (hb : b0.length = a0.length) (hy : y0.length = a0.length)
+    (hbox : ∀ k, k < a0.length → 0 ≤ gf a0 k ∧ gf a0 k ≤ gf b0 k) :
+    (writeBack (solveLoop e shrinking fuel (init e a0 p0 b0 y0) iter counter).1).length = a0.length ∧
+    (∀ a, a < a0.length →
+      0 ≤ gf (writeBack (solveLoop e shrinking fuel (init e a0 p0 b0 y0) iter counter).1) a ∧
+      gf (writeBack (solveLoop e shrinking fuel (init e a0 p0 b0 y0) iter counter).1) a ≤ gf b0 a) ∧
+    ∑ a ∈ Finset.range a0.length, (if gb y0 a then (1 : α) else -1) *
+        gf (writeBack (solveLoop e shrinking fuel (init e a0 p0 b0 y0) iter counter).1) a =
+      ∑ a ∈ Finset.range a0.length, (if gb y0 a then (1 : α) else -1) * gf a0 a := by
+  obtain ⟨hP, hA, hF⟩ := init_establishes e a0 p0 b0 y0 hb hy hbox
+  have h1 := solve_loop_keeps_permutation e shrinking fuel _ iter counter _ hP
+  have h2 := solve_loop_keeps_alignment e b0 y0 shrinking fuel _ iter counter hA
+  have h3 := solveLoop_feas _ _ e shrinking fuel _ iter counter hF
+  obtain ⟨r1, r2, r3⟩ := writeBack_feasible b0 y0 _ a0.length h1 h2 h3.1
+  exact ⟨r1, r2, by rw [r3]; exact h3.2.2.2.2⟩
+
+/-- the loop of `solve` as `solve` calls it -/
+def solveState (e : Env α) (shrinking : Bool) (fuel : Nat) (s0 : St α) : St α :=
+  (solveLoop e shrinking fuel s0 0 (min (ntotal s0) 1000 + 1)).1
+
+/-- `Svm.alpha` as `solve` computes it: write-back, then the regression fold -/
+theorem solve_alpha_eq (e : Env α) (thr : α) (shrinking : Bool) (fuel : Nat) (X : List (List α)) (d : Nat)
+    (s0 : St α) :
+    (solve e thr shrinking fuel X d s0).alpha =
+      foldRegression (writeBack (solveState e shrinking fuel s0)) X.length := rfl
+
+/-- **classification / one-class: `Svm.alpha` of `solve` is feasible** — as many data rows as variables
+(no fold): the published vector itself lies in the per-sample box and keeps `Σ y α` of the start. -/
+theorem solve_publishes_feasible (e : Env α) (thr : α) (shrinking : Bool) (fuel : Nat)
+    (X : List (List α)) (d : Nat) (a0 p0 b0 : List α) (y0 : List Bool)
+    (hX : X.length = a0.length) (hb : b0.length = a0.length) (hy : y0.length = a0.length)
+    (hbox : ∀ k, k < a0.length → 0 ≤ gf a0 k ∧ gf a0 k ≤ gf b0 k) :
+    (∀ a, a < a0.length →
+      0 ≤ gf (solve e thr shrinking fuel X d (init e a0 p0 b0 y0)).alpha a ∧
+      gf (solve e thr shrinking fuel X d (init e a0 p0 b0 y0)).alpha a ≤ gf b0 a) ∧
+    ∑ a ∈ Finset.range a0.length, (if gb y0 a then (1 : α) else -1) *
+        gf (solve e thr shrinking fuel X d (init e a0 p0 b0 y0)).alpha a =
+      ∑ a ∈ Finset.range a0.length, (if gb y0 a then (1 : α) else -1) * gf a0 a := by
+  obtain ⟨r1, r2, r3⟩ := published_alpha_feasible e shrinking fuel a0 p0 b0 y0 0
+    (min (ntotal (init e a0 p0 b0 y0)) 1000 + 1) hb hy hbox
+  have hfold : (solve e thr shrinking fuel X d (init e a0 p0 b0 y0)).alpha =
+      writeBack (solveLoop e shrinking fuel (init e a0 p0 b0 y0) 0
+        (min (ntotal (init e a0 p0 b0 y0)) 1000 + 1)).1 := by
+    rw [solve_alpha_eq]
+    unfold foldRegression solveState
+    rw [r1, hX]
+    simp
+  rw [hfold]
+  exact ⟨r2, r3⟩
+
+/-- **regression: the folded coefficient of sample `i` lies in `[-b0[i+m], b0[i]]`** (`2 m` variables over
+`m` data rows, `Svm.alpha[i] = out[i] - out[i+m]`). -/
+theorem solve_publishes_feasible_regression (e : Env α) (thr : α) (shrinking : Bool) (fuel : Nat)
+    (X : List (List α)) (d : Nat) (a0 p0 b0 : List α) (y0 : List Bool)
+    (hX : X.length + X.length = a0.length) (hm : 0 < X.length)
+    (hb : b0.length = a0.length) (hy : y0.length = a0.length)
+    (hbox : ∀ k, k < a0.length → 0 ≤ gf a0 k ∧ gf a0 k ≤ gf b0 k) :
+    (solve e thr shrinking fuel X d (init e a0 p0 b0 y0)).alpha.length = X.length ∧
+    ∀ i, i < X.length →
+      -gf b0 (i + X.length) ≤ gf (solve e thr shrinking fuel X d (init e a0 p0 b0 y0)).alpha i ∧
+      gf (solve e thr shrinking fuel X d (init e a0 p0 b0 y0)).alpha i ≤ gf b0 i := by
+  obtain ⟨r1, r2, _⟩ := published_alpha_feasible e shrinking fuel a0 p0 b0 y0 0
+    (min (ntotal (init e a0 p0 b0 y0)) 1000 + 1) hb hy hbox
+  rw [solve_alpha_eq]
+  have hlt : X.length < (writeBack (solveState e shrinking fuel (init e a0 p0 b0 y0))).length := by
+    unfold solveState; rw [r1]; omega
+  obtain ⟨f1, f2⟩ := foldRegression_spec _ X.length hlt
+  refine ⟨f1, ?_⟩
+  intro i hi
+  rw [f2 i hi]
+  unfold solveState
+  have hi1 := r2 i (by omega)
+  have hi2 := r2 (i + X.length) (by omega)
+  constructor <;> linarith [hi1.1, hi1.2, hi2.1, hi2.2]
+
+/-- the example problem `x = ±1` solved from `α = 0`: the published vector is `(1/2, 1/2)` -/
+example : (solve kEnv (1/1000000) false 10 [[1], [-1]] 1 (init kEnv [0, 0] [-1, -1] [1, 1] [true, false])).alpha
+    = [1/2, 1/2] := by
+  decide +kernel
+
+/-- **under `nu_constraint` every class keeps its sum through the whole main loop** (the second equality
+constraint `e'α = ν n` of the nu duals, per class; loop level — `nu_update_preserves_class_sums` is the
+single step): selection by `select_working_set_nu` (same class), step, shrinking swaps, reconstruction. -/
+theorem solve_loop_keeps_class_sums (e : Env α) (hnu : e.nu = true) (shrinking : Bool) (fuel : Nat)
+    (s : St α) (iter counter : Nat) (hb : Box s) (hy : s.y.length = s.alpha.length)
+    (hn : s.nactive ≤ s.alpha.length) (c : Bool) :
+    classSum (solveLoop e shrinking fuel s iter counter).1 c = classSum s c :=
+  (solveLoop_inv (classInv_loop e hnu c (classSum s c)) shrinking fuel s iter counter
+    ⟨hb, hy, hn, rfl⟩).2.2.2
+
+/-- **the rows `solve` stores are the rows of the coefficients above the threshold, and `nsupport()` counts
+them**: stated about `solve` itself (`Solved.support`, `Solved.alpha`), not about an arbitrary list. -/
+theorem solve_support_is_nonzero (e : Env α) (thr : α) (shrinking : Bool) (fuel : Nat) (X : List (List α))
+    (d : Nat) (s0 : St α) :
+    (solve e thr shrinking fuel X d s0).support = supportIdx thr (solve e thr shrinking fuel X d s0).alpha ∧
+    nsupport thr (solve e thr shrinking fuel X d s0).alpha = (solve e thr shrinking fuel X d s0).support.length ∧
+    ∀ kf : Nat → α, weightedSum thr (solve e thr shrinking fuel X d s0).alpha
+        ((solve e thr shrinking fuel X d s0).support.map kf) =
+      sumS ((solve e thr shrinking fuel X d s0).support.map fun i =>
+        kf i * gf (solve e thr shrinking fuel X d s0).alpha i) := by
+  have h1 : (solve e thr shrinking fuel X d s0).support =
+      supportIdx thr (solve e thr shrinking fuel X d s0).alpha := rfl
+  refine ⟨h1, ?_, ?_⟩
+  · rw [h1]; exact nsupport_counts_nonzero thr _
+  · intro kf; rw [h1]; exact weightedSum_pairs thr _ kf
+
+/-- **one SMO step keeps the gradient invariant `G_k = p_k + Σ_l Q_kl α_l` on the active positions**
+(`Q_kl` = entry `k` of `kernel.distances(l, ·)` as the kernel wrapper of the state serves it — any of the
+three wrappers, any kernel matrix, symmetric or not): the incremental update
+`G_k += Q_ki Δα_i + Q_kj Δα_j` of `update` is exact, for every pair of distinct active positions and every
+step length / clipping case.  Hypotheses = what `SolverState::new` establishes (sizes).
+
+PARTIAL with respect to the statement one wants: *the gradient the main loop holds when it stops is
+`p + Qα` of the published point* (so that `solve_returns_kkt_or_maxiter` speaks about the true gradient).
+Missing: the same invariant through `swap` / `do_shrinking` (positions beyond `nactive` hold stale
+gradients by design), through both branches of `reconstruct_gradient` (needs the companion invariant
+`Ḡ_k = Σ_{l at upper bound} C_l Q_kl` that `update` maintains on **all** positions) and through
+`SolverState::new`.  Those stay with the oracle clauses `gradient_active`, `gradient_fixed`,
+`gradient_reconstructed` (every scripted step) and with the bit-for-bit correspondence. -/
+theorem gradient_invariant_partial (e : Env α) (s : St α) (i j : Nat) (hij : i ≠ j)
+    (hi : i < s.nactive) (hj : j < s.nactive) (hn : s.nactive ≤ s.alpha.length)
+    (hg : s.grad.length = s.alpha.length) (h : GradOK e s) : GradOK e (update e s i j) :=
+  update_gradOK e s i j hij hi hj hn hg h
+
+/-- the two-sample optimum holds the exact gradient: `Q = [[1,1],[1,1]]`, `p + Qα = -1 + 1/2 + 1/2 = 0` -/
+example : GradOK kEnv kSt := by
+  intro k hk
+  have : k = 0 ∨ k = 1 := by simp only [kSt] at hk; omega
+  rcases this with h | h <;> subst h <;>
+    norm_num [kSt, kEnv, Qe, dist, gf, gb, gn, kEntry, Finset.sum_range_succ, List.range_succ]
 
 /-- the example's `active_set` is a 3-cycle (not an involution): variable values `[0, 1/2, 2]` at
 positions 0,1,2 belong to samples 2,0,1 -/
